@@ -174,7 +174,8 @@ def oracle_doc(cases, impl, workdir, tag, want=('wf', 'cont'), mode=None):
         n += 1
         bad = None
         if d.get('doc') == 'FAIL':
-            bad = 'format: the independent reader cannot read the buffer after op "%s"' % c.ops[a['i']]
+            if 'wf' in want:
+                bad = 'format: the independent reader cannot read the buffer after op "%s"' % c.ops[a['i']]
         elif 'wf' in want and d.get('wf') != 'T':
             bad = 'format: slot classification/structure ill-formed after op "%s" (hdr=%s free=%s never=%s)' % (c.ops[a['i']], d.get('doc'), d.get('free'), d.get('never'))
         elif 'wf' in want and c.kind == 'avl' and d.get('bst') != 'T':
@@ -188,11 +189,13 @@ def oracle_doc(cases, impl, workdir, tag, want=('wf', 'cont'), mode=None):
             uni = c.tags.get('uni')
             if not api <= dec or (uni is not None and {x for x in dec if int(x.split(':')[0]) in uni} != api):
                 bad = 'format: decoded contents %s differ from what the API reports %s after op "%s"' % (d.get('cont'), a['abs'], c.ops[a['i']])
+        if d.get('doc') == 'FAIL' and not bad:
+            continue
         if not bad and 'slot' in want and c.kind == 'avl':
             r = a.get('r', '')
             op = c.ops[a['i']].split(' ')
             if op[0] == 'ins' and r.startswith('S'):
-                m = re.search(r'[ (]%s:(-?\d+):' % r[1:], d.get('tree', ''))
+                m = re.search(r'[,(]%s:(-?\d+):' % r[1:], d.get('tree', ''))
                 if not m or int(m.group(1)) != int(op[1]):
                     bad = 'format: insert returned slot %s but that record does not hold key %s' % (r[1:], op[1])
         if not bad and 'bal' in want and c.kind == 'avl':
@@ -220,7 +223,7 @@ def oracle_moves(cases, impl):
             if not d or 'tree' not in d:
                 prev = None
                 continue
-            cur = {int(k): int(s) for s, k in re.findall(r'[ (](\d+):(-?\d+):', d['tree'])}
+            cur = {int(k): int(s) for s, k in re.findall(r'[,(](\d+):(-?\d+):', d['tree'])}
             if prev is not None:
                 op = c.ops[a['i']].split(' ')
                 for k, s in cur.items():
@@ -269,7 +272,7 @@ def oracle_cmps(cases, impl):
     return out, n
 
 def parse_tree(s):
-    """'(l slot:k:v:h r)' / '.' -> nested (l, key, r)"""
+    """'(l,slot:k:v:h,r)' / '.' -> nested (l, key, r)"""
     pos = [0]
     def go():
         if s[pos[0]] == '.':
@@ -279,7 +282,7 @@ def parse_tree(s):
         pos[0] += 1
         l = go()
         pos[0] += 1
-        j = s.index(' ', pos[0])
+        j = s.index(',', pos[0])
         k = int(s[pos[0]:j].split(':')[1])
         pos[0] = j + 1
         r = go()
